@@ -2741,7 +2741,29 @@ func ruleAccessorsHandOutCopies(c *Ctx, rule string) {
 					continue
 				}
 				v := an.ReturnValue(r, i)
-				base, field, isField := fieldLoadAny(v)
+				// the field itself, or the same memory under another name: a sub-slice, slices.Clip / Grow of it
+				var origin func(x ssa.Value, d int) (string, string, bool)
+				origin = func(x ssa.Value, d int) (string, string, bool) {
+					if b, f, ok := fieldLoadAny(x); ok {
+						return b, f, true
+					}
+					if d > 3 {
+						return "", "", false
+					}
+					switch y := x.(type) {
+					case *ssa.Slice:
+						return origin(y.X, d+1)
+					case *ssa.ChangeType:
+						return origin(y.X, d+1)
+					case *ssa.Call:
+						n := an.CalleeName(&y.Call)
+						if (strings.HasPrefix(n, "slices.Clip") || strings.HasPrefix(n, "slices.Grow")) && len(y.Call.Args) > 0 {
+							return origin(y.Call.Args[0], d+1)
+						}
+					}
+					return "", "", false
+				}
+				base, field, isField := origin(v, 0)
 				if !isField || base != "recv" {
 					continue
 				}
